@@ -76,7 +76,11 @@ func TestVerif_C02_limit(t *testing.T) {
 			e = s + uint64(r.Intn(int(mx-s)+1))
 		case "random":
 			s = r.U64() >> uint(r.Intn(64))
-			e = s + (r.U64()>>uint(r.Intn(64)))%(mx-s+1)
+			if s == 0 { // mx-s+1 wraps to 0
+				e = r.U64() >> uint(r.Intn(64))
+			} else {
+				e = s + (r.U64()>>uint(r.Intn(64)))%(mx-s+1)
+			}
 			lim = r.U64() >> uint(r.Intn(64))
 		case "inverted":
 			e = r.U64() >> uint(r.Intn(64))
